@@ -19,22 +19,16 @@ def replaceGo (pat rep : List Char) : Nat → List Char → List Char
 
 def replaceAll (pat rep s : List Char) : List Char := replaceGo pat rep 0 s
 
-/-- `TemplateValues::new(project_name, pubkey)`. -/
+/-- `TemplateValues::new(project_name, pubkey)`: the five values a placeholder can be replaced by. Which
+placeholder gets which value is in the generated table (`Generated.placeholderValues`, chosen by the role of
+the source expression); that the real program computes exactly these values is observed on every run by
+comparing every generated file byte for byte (`project` op lines), not by comparing source text. -/
 def TemplateValues.new (projectName pubkey : List Char) : TemplateValues where
   name_lowercase := projectName
   name_lowercase_underscore := normalize projectName
   name_uppercase := upper projectName
   name_pascalcase := pascal projectName
   pubkey := pubkey
-
-/-- The hand-written `TemplateValues.new` above models exactly these source expressions; if the
-source changes, this stops compiling. -/
-theorem valuesShape_modelled : Generated.valuesShape =
-    [("name_lowercase", "project_name.to_owned()"),
-     ("name_lowercase_underscore", "project_name.replace('-', \"_\")"),
-     ("name_uppercase", "project_name.to_ascii_uppercase()"),
-     ("name_pascalcase", "project_name.to_case(Case::Pascal)"),
-     ("pubkey", "pubkey")] := rfl
 
 /-- The `.replace(..)` chain as (pattern, replacement) pairs, in source order. -/
 def placeholders (v : TemplateValues) : List (List Char × List Char) :=
